@@ -158,7 +158,7 @@ def suite_passes(m, scratch):
     d = pathlib.Path(scratch) / f'm{m["id"]}'
     shutil.copytree(REPO, d, ignore=shutil.ignore_patterns('.git', '__pycache__', '*.egg-info'))
     (d / 'src' / 'factorysimpy' / m['file']).write_text(m['src'])
-    out = subprocess.run(['/venv/bin/python', '-m', 'pytest', '-q', '-p', 'no:cacheprovider', '--timeout=300', '--continue-on-collection-errors', '-x', '-q'],
+    out = subprocess.run(['/venv/bin/python', '-m', 'pytest', '-q', '-p', 'no:cacheprovider', '--timeout=300', '--continue-on-collection-errors'],
                          cwd=d, env=dict(os.environ, PYTHONPATH=str(d / 'src')), capture_output=True, text=True)
     shutil.rmtree(d, ignore_errors=True)
     tail = out.stdout.strip().splitlines()[-1] if out.stdout.strip() else ''
